@@ -160,6 +160,10 @@ func compare(out *Outcome, gotTrace []string, val interface{}, err error, host *
 			return "value", fmt.Sprintf("model value %s, anko %s", Render(out.Value), RenderGo(val))
 		}
 	}
+	if host == nil {
+		// a run whose top-level bindings are not observed (shared.go: the program ran as a function body)
+		return "", ""
+	}
 	// final top-level bindings of the pool names
 	for _, nm := range pool {
 		mv, mok := out.Top.vars[nm]
